@@ -27,15 +27,31 @@ func genericRules(nlay int) []Rule {
 // nestedLayout places every widget inside its parent: column 0 and row 0 of a
 // widget stay its own, its children split the rest side by side.
 func nestedLayout(parent []int, cols, rows int) []Geom {
+	return nestedLayoutOf(parent, nil, nil, cols, rows)
+}
+
+// nestedLayoutOf is nestedLayout in which the widgets of skip get no room
+// (they are not drawn) and a widget k of twin gets the rectangle of its sibling
+// twin[k] instead of a slot of its own (two pages on top of each other).
+func nestedLayoutOf(parent []int, skip []int, twin map[int]int, cols, rows int) []Geom {
 	n := len(parent)
+	skipped := map[int]bool{}
+	for _, w := range skip {
+		skipped[w-1] = true
+	}
 	g := make([]Geom, n)
 	g[0] = Geom{W: cols, H: rows}
 	var place func(w int)
 	place = func(w int) {
 		var kids []int
+		var twins []int
 		for k := range parent {
-			if parent[k] == w+1 {
-				kids = append(kids, k)
+			if parent[k] == w+1 && !skipped[k] {
+				if _, ok := twin[k+1]; ok {
+					twins = append(twins, k)
+				} else {
+					kids = append(kids, k)
+				}
 			}
 		}
 		if len(kids) == 0 {
@@ -48,6 +64,10 @@ func nestedLayout(parent []int, cols, rows int) []Geom {
 			if each < 1 || ah < 1 {
 				g[k] = Geom{X: 1, Y: 1}
 			}
+			place(k)
+		}
+		for _, k := range twins {
+			g[k] = g[twin[k+1]-1]
 			place(k)
 		}
 	}
@@ -256,6 +276,101 @@ func GenHidden(minN, maxN int, rng *rand.Rand, sample int) []*Scn {
 	return out
 }
 
+// ---- widgets drawn by different parents in different layouts --------------------
+
+// GenReparent: bounded-exhaustive re-parenting under a resting pointer. One
+// session per (tree shape of minN..maxN widgets, widget m whose parent q is
+// not the root, sibling p of q, mode, capture mask): layout 0 draws m (with its
+// subtree) as a child of q, layout 1 as a child of p. Modes: "tabs" - only the
+// page that holds m is drawn, so m keeps its screen position; "stack" - q and p
+// cover the same rectangle and the one that holds m is on top (z); "side" - both
+// are drawn side by side, m moves on the screen. For every widget t of m's
+// subtree: focus t, pointer onto t, the switch with the pointer resting, a key,
+// every mouse class (press, release, motion, wheel; each with its single
+// consumer (widget, phase) or none) at the resting cell, the same at t's new
+// place, the switch back, terminal focus out/in, and the pointer leaving the
+// root. sample > 0 keeps one in sample of the sessions of size maxN.
+func GenReparent(minN, maxN int, rng *rand.Rand, sample int) []*Scn {
+	var out []*Scn
+	const cols, rows = 24, 8
+	for n := minN; n <= maxN; n++ {
+		for _, par := range shapes(n) {
+			for m := 2; m <= n; m++ {
+				q := par[m-1]
+				if q == 1 {
+					continue
+				}
+				for p := 2; p <= n; p++ {
+					if p == q || par[p-1] != par[q-1] {
+						continue
+					}
+					for _, mode := range []string{"tabs", "stack", "side"} {
+						for mask := 0; mask < 1<<n; mask++ {
+							if sample > 0 && n == maxN && rng.Intn(sample) != 0 {
+								continue
+							}
+							par1 := append([]int(nil), par...)
+							par1[m-1] = p
+							sc := &Scn{Kind: "reparent-" + mode, Cols: cols, Rows: rows, Parent: par, Pars: [][]int{par, par1}}
+							for i := 0; i < n; i++ {
+								sc.Caps = append(sc.Caps, mask&(1<<i) != 0)
+							}
+							switch mode {
+							case "tabs":
+								sc.Hid = [][]int{{p}, {q}}
+								sc.Lays = [][]Geom{nestedLayoutOf(par, sc.Hid[0], nil, cols, rows), nestedLayoutOf(par1, sc.Hid[1], nil, cols, rows)}
+							case "stack":
+								tw := map[int]int{p: q}
+								sc.Lays = [][]Geom{nestedLayoutOf(par, nil, tw, cols, rows), nestedLayoutOf(par1, nil, tw, cols, rows)}
+								sc.Lays[0][q-1].Z, sc.Lays[1][p-1].Z = 1, 1
+							default:
+								sc.Lays = [][]Geom{nestedLayout(par, cols, rows), nestedLayout(par1, cols, rows)}
+							}
+							j := 0
+							for w := 1; w <= n; w++ {
+								for _, ph := range phases {
+									sc.Rules = append(sc.Rules, Rule{W: w, Cls: mouseClasses[j].cls, Ph: ph, Cmd: slice(cmd("consume"))})
+									j++
+								}
+							}
+							for w := 1; w <= n; w++ {
+								sc.Rules = append(sc.Rules, Rule{Cls: "k" + string(rune('A'+w-1)), Ph: "tgt", Cmd: batch(focus(w), cmd("consume"))})
+							}
+							sc.Rules = append(sc.Rules, genericRules(2)...)
+							at := func(c, x, y int) Step {
+								mc := mouseClasses[c]
+								return Step{T: "mouse", B: mc.b, Rel: mc.rel, X: x, Y: y}
+							}
+							for _, t := range subtree(par, m) {
+								g0, g1 := sc.Lays[0][t-1], sc.Lays[1][t-1]
+								if g0.W < 1 || g0.H < 1 || g1.W < 1 || g1.H < 1 {
+									continue
+								}
+								x0, y0 := origin(par, sc.Lays[0], t-1)
+								x1, y1 := origin(par1, sc.Lays[1], t-1)
+								sc.Steps = append(sc.Steps, key("0"), key(string(rune('A'+t-1))), key("a"), mouse(35, x0, y0),
+									key("1"), key("a"))
+								for c := 0; c <= j && c < len(mouseClasses); c++ {
+									sc.Steps = append(sc.Steps, at(c, x0, y0))
+								}
+								if x1 != x0 || y1 != y0 {
+									sc.Steps = append(sc.Steps, mouse(35, x1, y1), at(rng.Intn(j), x1, y1), at(j, x1, y1))
+								}
+								sc.Steps = append(sc.Steps, key("0"), at(rng.Intn(j+1), x1, y1), Step{T: "tfout"}, Step{T: "tfin"}, at(j, x1, y1),
+									key("1"), mouse(35, cols+3, rows+2), mouse(0, cols+3, rows+2), mouse(35, x1, y1), key("0"), Step{T: "tfout"})
+							}
+							if len(sc.Steps) > 0 {
+								out = append(out, sc)
+							}
+						}
+					}
+				}
+			}
+		}
+	}
+	return out
+}
+
 // ---- random sessions ---------------------------------------------------------
 
 func overlap(a, b Geom) bool {
@@ -320,7 +435,10 @@ func randCmd(rng *rand.Rand, n int, depth int, allowFocus bool) *CmdD {
 
 // GenRandom: hidden = some widgets are not drawn in some layouts (kind
 // "random-hidden": more layouts, focus keys and layout switches).
-func GenRandom(rng *rand.Rand, count int, hidden bool) []*Scn {
+// repar = some widgets are drawn by another parent in the layouts after the
+// first (kind "random-reparent", with hidden "random-hidden-reparent"), half of
+// them with a page pair on top of each other that hands a child over.
+func GenRandom(rng *rand.Rand, count int, hidden, repar bool) []*Scn {
 	var out []*Scn
 	for i := 0; i < count; i++ {
 		n := 1 + rng.Intn(7)
@@ -335,14 +453,75 @@ func GenRandom(rng *rand.Rand, count int, hidden bool) []*Scn {
 			sc.Caps = append(sc.Caps, rng.Intn(3) == 0)
 		}
 		nlay := 1 + rng.Intn(3)
-		if hidden && nlay == 1 {
+		if (hidden || repar) && nlay == 1 {
 			nlay = 2
 		}
+		if repar {
+			sc.Pars = [][]int{par}
+			for k := 1; k < nlay; k++ {
+				pk := append([]int(nil), par...)
+				for mv := 0; mv < 1+rng.Intn(2) && n > 2; mv++ {
+					m := 2 + rng.Intn(n-1)
+					under := map[int]bool{}
+					for _, w := range subtree(pk, m) {
+						under[w] = true
+					}
+					var cand []int
+					for w := 1; w <= n; w++ {
+						if !under[w] && w != pk[m-1] {
+							cand = append(cand, w)
+						}
+					}
+					if len(cand) > 0 {
+						pk[m-1] = cand[rng.Intn(len(cand))]
+					}
+				}
+				sc.Pars = append(sc.Pars, pk)
+			}
+		}
 		for k := 0; k < nlay; k++ {
-			sc.Lays = append(sc.Lays, randLayout(rng, par, cols, rows, tidy && k == 0))
+			sc.Lays = append(sc.Lays, randLayout(rng, sc.parentAt(k), cols, rows, tidy && k == 0))
+		}
+		var handover []Step
+		if repar && rng.Intn(2) == 0 {
+			// a page pair q, p on the same rectangle (q on top in layout 0, p in layout 1) hands the child m over
+			var ms []int
+			for m := 2; m <= n; m++ {
+				if par[m-1] != 1 {
+					ms = append(ms, m)
+				}
+			}
+			if len(ms) > 0 {
+				m := ms[rng.Intn(len(ms))]
+				q := par[m-1]
+				var ps []int
+				for p := 2; p <= n; p++ {
+					if p != q && par[p-1] == par[q-1] {
+						ps = append(ps, p)
+					}
+				}
+				if len(ps) > 0 {
+					p := ps[rng.Intn(len(ps))]
+					sc.Pars[1] = append([]int(nil), par...)
+					sc.Pars[1][m-1] = p
+					sc.Lays[1] = append([]Geom(nil), sc.Lays[0]...)
+					sc.Lays[0][p-1], sc.Lays[1][p-1] = sc.Lays[0][q-1], sc.Lays[0][q-1]
+					sc.Lays[0][p-1].Z, sc.Lays[1][p-1].Z = sc.Lays[0][q-1].Z-10, sc.Lays[0][q-1].Z+10
+					x, y := origin(par, sc.Lays[0], m-1)
+					x, y = x+rng.Intn(2), y+rng.Intn(2)
+					b := []int{0, 35, 64}[rng.Intn(3)]
+					handover = []Step{key("0"), mouse(35, x, y), key("1"), mouse(b, x, y), mouse(35, x, y), key("0"), mouse(b, x, y)}
+				}
+			}
+		}
+		if repar {
+			sc.Kind = "random-reparent"
 		}
 		if hidden {
 			sc.Kind = "random-hidden"
+			if repar {
+				sc.Kind = "random-hidden-reparent"
+			}
 			sc.Hid = make([][]int, nlay)
 			for k := 0; k < nlay; k++ {
 				sc.Hid[k] = []int{}
@@ -385,7 +564,14 @@ func GenRandom(rng *rand.Rand, count int, hidden bool) []*Scn {
 			sc.Rules = append(sc.Rules, Rule{Cls: "k" + string(rune('A'+w-1)), Ph: "tgt", Cmd: slice(cmd("consume"), focus(w))})
 		}
 		sc.Rules = append(sc.Rules, genericRules(nlay)...)
+		hoAt := -1
+		if handover != nil {
+			hoAt = rng.Intn(4)
+		}
 		for s := 0; s < 4+rng.Intn(16); s++ {
+			if s == hoAt {
+				sc.Steps = append(sc.Steps, handover...)
+			}
 			if hidden && rng.Intn(3) == 0 {
 				// focus a widget (drawn or not), perhaps switch the layout, then a key or a custom event
 				sc.Steps = append(sc.Steps, key(string(rune('A'+rng.Intn(n)))))
@@ -491,5 +677,17 @@ func Fixed() []*Scn {
 			{W: 1, Cls: "kz", Ph: "cap", Cmd: cmd("consume")}}, genericRules(2)...),
 		Steps: []Step{key("y"), key("n"), key("y"), Step{T: "custom", N: 1}, Step{T: "custom", N: 2}, key("z"), key("1"), key("y"), Step{T: "custom", N: 1},
 			key("0"), key("y"), key("n"), key("y"), key("R"), key("y"), key("n"), key("n"), key("y"), key("n"), key("1"), key("y")}})
+	// a tab view: the root shows page 2 or page 3, both wrap the same leaf 4 at the same place. After the page
+	// switch under a resting pointer the old page has left the chain (leave) and the new one entered it, and
+	// the next click is routed through the new page
+	tp0, tp1 := []int{0, 1, 1, 2}, []int{0, 1, 1, 3}
+	tl0, tl1 := nestedLayoutOf(tp0, []int{3}, nil, 20, 6), nestedLayoutOf(tp1, []int{2}, nil, 20, 6)
+	tx, ty := origin(tp0, tl0, 3)
+	out = append(out, &Scn{Kind: "fixed-reparent", Cols: 20, Rows: 6, Parent: tp0, Pars: [][]int{tp0, tp1}, Caps: []bool{false, true, true, false},
+		Lays: [][]Geom{tl0, tl1}, Hid: [][]int{{3}, {2}},
+		Rules: append([]Rule{{Cls: "kA", Ph: "tgt", Cmd: batch(focus(4), cmd("consume"))}}, genericRules(2)...),
+		Steps: []Step{mouse(35, tx+1, ty), key("1"), mouse(0, tx+1, ty), Step{T: "mouse", B: 0, Rel: true, X: tx + 1, Y: ty}, mouse(64, tx+1, ty),
+			key("A"), key("y"), key("0"), key("y"), mouse(0, tx+1, ty), key("1"), Step{T: "tfout"}, Step{T: "tfin"}, mouse(35, tx+1, ty), key("0"),
+			mouse(35, 40, 40), key("1"), mouse(35, tx, ty), mouse(35, 40, 40)}})
 	return out
 }
